@@ -4,6 +4,7 @@ import numpy as np
 from harness import gen
 from harness.core import SubCheck, Violation, E2E_MODES
 from props import common_e2e as ce
+from harness import e2e
 
 PROPERTY = "C12"
 LEVEL = "exploration"
@@ -14,7 +15,8 @@ RULE = ("Traced runs of both front ends from the shared end-to-end generator wit
         "windows; its covariance is centred^T centred / (n - (0 if biased else 1)) computed here (entry (i,j) within "
         "1e-10*sqrt(S_ii S_jj) + 1e-300; 0-d array accepted for NW=1); the k-th optimiser call of the round received that "
         "covariance bit for bit, the caller's sparsity weight (same object or equal value), W and N. Non-trivial = the "
-        "round follows a repopulation or biased=True, in a run with >= 2 rounds; distinct by SHA-1 of the case.")
+        "round follows a repopulation or biased=True, in a run with >= 2 rounds; distinct by SHA-1 of the case."
+        " Separately: every MRF stored by an optimise phase equals a fresh solve of that cluster's own covariance, with the synchronous pool and with the library's pool of 2-4 worker processes (K>=3).")
 ASSUMPTIONS = ["per-round states via the guarded phase hook; optimiser arguments via substitution of the public entry point under a synchronous pool"]
 
 
@@ -89,6 +91,69 @@ def execute(case, t):
         t.mark_nontrivial(ce.brief_result(tr))
 
 
+def _fit_is_own(stored, theta_compressed, eps):
+    from fast_ticc import matrix_compression
+    th = matrix_compression.reinflate_matrix(np.array(theta_compressed, copy=True))
+    if eps:
+        th = np.where(np.abs(th) >= eps, th, 0.0)
+    st_ = np.asarray(stored)
+    return st_.shape == th.shape and np.array_equal(st_, th)
+
+
+def execute_fit_belongs_to_cluster(case, t):
+    """The Markov random field stored for cluster k after the optimise phase is the optimiser's answer to cluster k's own
+    covariance - not another cluster's - also when the tasks run in several worker processes.  The reference answer is
+    obtained here by solving each cluster's covariance again, directly, with the arguments the library uses."""
+    from fast_ticc import admm
+    from props.C20 import plain_run, _reap
+    workers = case["workers"]
+    cfg = {k: v for k, v in case.items() if k not in ("workers", "delays_ms")}
+    cfg["eps"] = 0
+    sync = e2e.run(dict(cfg), sync_pool=True, record_admm=True)
+    if not sync.ok:
+        t.discard(f"run raised {type(sync.exc).__name__}")
+    kw = dict(sync.rounds[0]["admm"][0]["kwargs"])
+    lam = sync.rounds[0]["admm"][0]["lam"]
+    # (a) synchronous pool: recorded answer k belongs to cluster k
+    for r, q in enumerate(sync.rounds):
+        after = q["phases"]["optimize"]["after"]["clusters"]
+        for k, call in enumerate(q["admm"]):
+            if not _fit_is_own(after[k]["train_inverse"], call["theta"], 0):
+                raise Violation(f"round {r}: the matrix stored for cluster {k} is not the optimiser's answer to the {k}-th task (its own covariance)")
+    # (b) the library's own pool with several workers
+    t0 = __import__("time").time()
+    tr, left, timed_out = plain_run(dict(cfg, num_processors=workers), workers, 600.0, t)
+    _reap(left)
+    if timed_out or not tr.ok:
+        t.discard("multi-worker run did not complete (C14/C20 decide that)")
+    sizes_differ = False
+    for r, q in enumerate(tr.rounds):
+        stats = q["phases"]["statistics"]["after"]["clusters"]
+        after = q["phases"]["optimize"]["after"]["clusters"]
+        for k in range(case["K"]):
+            S = np.atleast_2d(stats[k]["empirical_covariance"])
+            own = admm.admm_optimize_theta(S, lam, case["W"], case["N"], **kw)
+            if not _fit_is_own(after[k]["train_inverse"], own.theta, 0):
+                whose = [j for j in range(case["K"]) if j != k and
+                         _fit_is_own(after[k]["train_inverse"], admm.admm_optimize_theta(np.atleast_2d(stats[j]["empirical_covariance"]), lam, case["W"], case["N"], **kw).theta, 0)]
+                raise Violation(f"round {r}, {workers} workers: the matrix stored for cluster {k} is not the optimiser's answer to cluster {k}'s "
+                                f"covariance" + (f"; it is the answer to cluster {whose[0]}'s" if whose else ""))
+        sz = [len(c["members"]) for c in stats]
+        if len(set(sz)) == len(sz) and sorted(range(len(sz)), key=lambda i: sz[i]) != list(range(len(sz))):
+            sizes_differ = True
+    t.cls(f"workers_{workers}")
+    t.cls(f"K={case['K']}")
+    if sizes_differ:
+        t.cls("cluster_sizes_not_in_index_order")
+    if case["K"] >= 3:
+        t.mark_nontrivial(ce.brief_result(tr))
+
+
+def _multiworker_case():
+    from props.C13 import multiworker_case
+    return multiworker_case().map(lambda c: dict(c, K=max(3, c["K"]), lam_form="scalar"))
+
+
 SUBCHECKS = [
     SubCheck(name="per_round_statistics_long_series", strategy=gen.e2e_long_config, execute=execute,
              budget={"quick": 15, "thorough": 300}, shards={"quick": 3, "thorough": 16}, modes=E2E_MODES),
@@ -97,4 +162,7 @@ SUBCHECKS = [
                                              lam_forms=("scalar", "scalar", "const_matrix", "random_matrix", "asymmetric_matrix"), allow_degenerate=True), execute=execute,
              budget={"quick": 160, "thorough": 4000}, shards={"quick": 16, "thorough": 8}, modes=E2E_MODES,
              min_nontrivial_fraction=0.25),
+    SubCheck(name="stored_fit_is_the_clusters_own_also_with_worker_processes", strategy=_multiworker_case, execute=execute_fit_belongs_to_cluster,
+             budget={"quick": 32, "thorough": 600}, shards={"quick": 16, "thorough": 16}, modes=E2E_MODES,
+             shrink={"quick": False, "thorough": False}),
 ]
